@@ -79,6 +79,8 @@ class Tr(object):
             ops = ({ast.Add: 'Z.add', ast.Sub: 'Z.sub', ast.Mult: 'Z.mul'} if self.zmode else
                    {ast.Add: 'qadd', ast.Sub: 'qsub', ast.Mult: 'qmul', ast.Div: 'qdiv'})
             op = ops.get(type(e.op))
+            if isinstance(e.op, ast.FloorDiv) and not self.zmode:
+                return '(zq (Qfloor (qdiv %s %s)))' % (self.expr(e.left, env), self.expr(e.right, env))
             if not op:
                 raise Unsupported('binop %s' % txt)
             return '(%s %s %s)' % (op, self.expr(e.left, env), self.expr(e.right, env))
